@@ -138,13 +138,22 @@ Virtual(fs) ==
   IN ConcatReadable(so, 1) \o (IF \E i \in 1..Len(so) : HasStop(so[i].recs) THEN <<Torn(1)>> ELSE <<>>)
 
 ScanErr == [ok |-> FALSE, h |-> <<>>, tail |-> FALSE]
+SortedCommits(fs) == SortSeq(ReadSeg(Virtual(fs)).commits, LAMBDA a, b : a.lsn < b.lsn)
+SortedFrames(fs) == SortSeq(ReadSeg(Virtual(fs)).frames, LAMBDA a, b : a.lsn < b.lsn)
+\* recover_from_frames_and_commits since /repo e8a1c7e (partial repair of F13): the commit markers
+\* must TILE the frame LSN range - the first starts at the lowest frame LSN, every later one at the
+\* previous commit's last LSN + 1 (LsnContinuityMismatch otherwise).  Wal!Scan predates that commit,
+\* so the rule is added here; it is idempotent should Wal!Scan gain it too.
+TilesOk(fr, cm) ==
+  \A i \in 1..Len(cm) : cm[i].first = (IF i = 1 THEN fr[1].lsn ELSE cm[i - 1].lsn + 1)
 \* recover_filesystem_store(root, ReadOnly)
-FsScan(fs) == IF ~PathsOk(fs) THEN ScanErr ELSE Scan(Virtual(fs), "fs")
+FsScan(fs) ==
+  IF ~PathsOk(fs) THEN ScanErr
+  ELSE LET sc == Scan(Virtual(fs), "fs")
+       IN IF sc.ok /\ Len(sc.h) > 0 /\ ~TilesOk(SortedFrames(fs), SortedCommits(fs)) THEN ScanErr ELSE sc
 \* doctor_filesystem_store: Obstructed iff the scan fails; otherwise the number of transactions
 DoctorOf(fs) == LET sc == FsScan(fs) IN [class |-> IF sc.ok THEN "ok" ELSE "err", n |-> Len(sc.h)]
 
-SortedCommits(fs) == SortSeq(ReadSeg(Virtual(fs)).commits, LAMBDA a, b : a.lsn < b.lsn)
-SortedFrames(fs) == SortSeq(ReadSeg(Virtual(fs)).frames, LAMBDA a, b : a.lsn < b.lsn)
 LastFin(cm) == IF Len(cm) = 0 THEN 0 ELSE cm[Len(cm)].lsn + 1
 LastCid(cm) == IF Len(cm) = 0 THEN NoC ELSE CommitId(cm[Len(cm)])
 
